@@ -2,15 +2,15 @@
 
 PROPS = {
     "C05": dict(
-        level="proof",
+        level="other",
         explanation=("Every method of the real `Individual` (extracted verbatim each run) carries a Verus contract over the "
                      "two-field view (solution, objective); collection helpers are checked by Kani Hoare triples at "
                      "enumerated lengths (bounded, listed)."),
         verus=[dict(name="individual", template="contracts/C05/individual.vrs",
                     expect=["Individual<P>::solution_mut", "Individual<P>::evaluate_with", "Individual<P>::set_objective",
                             "<Individual<P> as Clone>::clone"])],
-        kani=[],
-        min_obligations={"quick": 11, "thorough": 11},
+        kani=[dict(files=["contracts/C05/c05.rs"])],
+        min_obligations={"quick": 16, "thorough": 16},
         uncovered=["'after every component execution of every shipped heuristic' (whole runs) is not decided by per-function contracts"],
         assumptions=["Clone/PartialEq of the encoding and objective types behave as vstd's `cloned` / spec eq",
                      "fields `solution`/`objective` are private and only written in src/problems/individual.rs (scan)"],
@@ -72,9 +72,10 @@ PROPS["C07"] = dict(
                  "never worse than before nor than the candidate' over an abstract total order whose laws are C09's obligations. "
                  "Kani: population best / archive kernels at enumerated sizes."),
     verus=[dict(name="best_individual", template="contracts/C07/best_individual.vrs",
-                expect=["BestIndividual<P>::update", "BestIndividual<P>::new"])],
-    kani=[],
-    min_obligations={"quick": 13, "thorough": 13},
+                expect=["BestIndividual<P>::update", "BestIndividual<P>::new"]),
+           dict(name="update_exec", template="contracts/C07/update_exec.vrs", expect=["<BestIndividualUpdate as Component<P>>::execute"])],
+    kani=[dict(files=["contracts/C07/c07.rs"], inject=[dict(file="contracts/C07/c07_archive.rs", into="src/components/archive.rs")])],
+    min_obligations={"quick": 40, "thorough": 41},
     uncovered=["whole-run clause 'reported best = minimum returned' (placement of updates in templates)"],
     assumptions=["SingleObjective order laws (preamble/objective.rs) = C09 obligations"],
 )
@@ -92,7 +93,7 @@ NOT_APPLICABLE = {
 
 MANIFEST_TEXT = {
     "C05": dict(
-        category="proof",
+        category="other",
         technique="Verus contracts on the real Individual methods (extracted verbatim each run), Z3",
         text=("Every method of `Individual` is extracted verbatim from /repo on each run and verified by Verus against a contract "
               "over the view (solution, objective): solution_mut clears the objective and hands out exactly the solution; "
@@ -157,4 +158,14 @@ PROPS["C14"] = dict(
     min_obligations={"quick": 6, "thorough": 6},
     uncovered=["initialisation operators (rejection-sampling loops over a symbolic RNG are unbounded)", "resampling distribution",
                "boundary_constraint driver over populations"],
+)
+
+PROPS["C12"] = dict(
+    level="other",
+    explanation=("Verus: the replacement() driver extracted verbatim, verified against the C04 Populations contracts and an ARBITRARY "
+                 "Replacement operator (unbounded). Kani: Hoare triples on the real replace kernels at enumerated sizes."),
+    verus=[dict(name="driver", template="contracts/C12/driver.vrs", expect=["replacement"])],
+    kani=[dict(files=["contracts/C12/c12.rs"])],
+    min_obligations={"quick": 20, "thorough": 22},
+    uncovered=["KeepBetterAtIndex (ensure! => Kani ICE; iterator chain => Verus rejects)"],
 )
